@@ -354,7 +354,9 @@ def programs(tier, rng, style=0):
                 obj({'k': (lit('x'), False), 'v': (u, False)}), obj({'n': (u, True)}, index=None)]
     lu = alias(union(lit('a'), lit('b'), lit(1), lit(2)))
     out += [exclude_lits(lu, ['a']), exclude_lits(lu, ['a', 1]), exclude_lits(lu, ['a', 'b', 1, 2]), enum_str(['x', 'y']), enum_str(['only']), const_typeof({'a': 1, 'b': 'x'}),
-            tpl('id_'), tpl('', '_end'), tpl('a', 'z'), tpl_lits(['x', 'y'], '_id'),
+            tpl('id_'), tpl('', '_end'), tpl('a', 'z'), tpl_lits(['x', 'y'], '_id'), tpl('a|b_'), tpl('x.y*', '+(z)'), tpl('[q]{1}^$', '?'), tpl_lits(['a|b', 'c'], '--'),
+            union(obj({'kind': (lit('labels'), False)}, index=STRING), obj({'kind': (lit('c'), False), 'r': (NUMBER, False)})),
+            union(obj({'kind': (lit('m'), False), 'n': (NUMBER, True)}, index=union(STRING, NUMBER)), obj({'kind': (lit('c'), False), 'r': (NUMBER, False)}), obj({'kind': (lit('d'), False)})),
             conditional(lit('a'), STRING, NUMBER, BOOLEAN, True), conditional(STRING, lit('a'), NUMBER, BOOLEAN, False), conditional(lit(1), union(lit(1), lit(2)), lit('y'), lit('n'), True),
             conditional(arr(NUMBER), arr(union(NUMBER, STRING)), lit('y'), lit('n'), True), conditional(obj({'a': (STRING, False)}), obj({'a': (STRING, True)}), lit('y'), lit('n'), True),
             DATE, BIGINT, U8, map_of(STRING, NUMBER), set_of(union(STRING, TNULL)), obj({'d': (DATE, False), 'b': (BIGINT, True)}), tup([U8, union(DATE, TNULL)]),
